@@ -1565,6 +1565,27 @@ func (e *Env) call(ex *ast.CallExpr) (SymVal, error) {
 				return v, nil
 			}
 		}
+		// a variable of the function under analysis that lives in a heap cell because closures
+		// of this function capture it
+		for i := range c.dbg[id.Name] {
+			d := &c.dbg[id.Name][i]
+			if al, ok := d.v.(*ssa.Alloc); ok && d.isAddr {
+				if _, defined := c.vals[al]; defined {
+					locs, t := c.addrLocs(e.st, al)
+					return c.loadLocs(e.st, locs, t), nil
+				}
+			}
+		}
+		for _, b := range c.fn.Blocks {
+			for _, in := range b.Instrs {
+				if al, ok := in.(*ssa.Alloc); ok && al.Comment == id.Name && al.Heap {
+					if _, defined := c.vals[al]; defined {
+						locs, t := c.addrLocs(e.st, al)
+						return c.loadLocs(e.st, locs, t), nil
+					}
+				}
+			}
+		}
 		return SymVal{}, fmt.Errorf("captured: %s is not a captured variable", id.Name)
 	case "param":
 		// param(x): the value the parameter x had on entry, even where an inner declaration shadows it
